@@ -156,6 +156,39 @@ Fixpoint delete_multi (fuel : nat) (st : lstate) (remaining : list Z) (accm : li
     end
   end.
 
+(* the same loop with a backoff function that succeeds bk times and then returns an error (a cancelled context in
+   DeleteMultiWithWait): the pass just made has removed its messages, and they are part of what is returned *)
+Fixpoint delete_multi_bk (fuel bk : nat) (st : lstate) (remaining : list Z) (accm : list msg) (accs : Z)
+  : lstate * list msg * Z * option ierr :=
+  match fuel with
+  | O => (st, accm, accs, Some EOutOfFuel)
+  | S f =>
+    match remaining with
+    | [] => (st, accm, accs, None)
+    | _ =>
+      match log_delete H st remaining with
+      | Err e => (st, accm, accs, Some e)
+      | Ok (st1, ([], _)) => (st1, accm, accs, None)
+      | Ok (st1, (del, sz)) =>
+        let rem := filter (fun o => negb (zmem o (map moff del))) remaining in
+        match bk with
+        | O => (st1, accm ++ del, accs + sz, Some EOther)
+        | S b => delete_multi_bk f b st1 rem (accm ++ del) (accs + sz)
+        end
+      end
+    end
+  end.
+
+Definition log_delete_multi_bk (bk : nat) (st : lstate) (offs : list Z) : lstate * list msg * Z * option ierr :=
+  delete_multi_bk (S (length offs)) bk st offs [] 0.
+
+Definition trim_multi_bk (bk : nat) (find : lstate -> res (lstate * list Z)) (st : lstate)
+  : lstate * list msg * Z * option ierr :=
+  match find st with
+  | Err e => (st, [], 0, Some e)
+  | Ok (st1, offs) => log_delete_multi_bk bk st1 offs
+  end.
+
 Definition log_delete_multi (st : lstate) (offs : list Z) : lstate * list msg * Z * option ierr :=
   delete_multi (S (length offs)) st offs [] 0.
 
